@@ -328,6 +328,14 @@ func (p *Prog) drainCheck(c *Ctx, f *Func, src *types.Var, inline ast.Expr, pipe
 					if !ok {
 						return false
 					}
+					// errors.Is(err, X) / errors.As(err, &t) holds: err is non-nil
+					if at.Kind == "call" && at.True {
+						if call, isC := at.X.(*ast.CallExpr); isC && len(call.Args) >= 1 {
+							if nm := p.CalleeName(f, call); (nm == "errors.Is" || nm == "errors.As") && identObj(info, call.Args[0]) == errv {
+								return true
+							}
+						}
+					}
 					if identObj(info, at.X) != errv {
 						return false
 					}
